@@ -676,9 +676,19 @@ pub fn run_c01(a: &Args, shared: &SharedReport) {
                 return;
             }
             idx += 1;
-            m.props = vec![always_true()];
+            // a second property that does get a discovery (the first never does, so the check must go on and still
+            // evaluate everything)
+            m.props = match idx % 3 {
+                0 => vec![always_true(), (Expectation::Sometimes, 1 << (m.n() - 1))],
+                1 => vec![always_true(), (Expectation::Always, !(1u8 << (m.n() / 2)))],
+                _ => vec![always_true()],
+            };
             let orc = Oracle::new(&m);
-            for st in exhaustive_strategies() {
+            let mut strategies = exhaustive_strategies();
+            if m.inits.len() >= 2 {
+                strategies.push(Strategy::OnDemandProbe(idx as usize));
+            }
+            for st in strategies {
                 let mut cfgs = vec![Config::plain(st.clone())];
                 if th || idx % 4 == 0 {
                     cfgs.push(Config { block: Some(1), ..Config::plain(st.clone()) });
@@ -703,9 +713,17 @@ pub fn run_c01(a: &Args, shared: &SharedReport) {
     }
     // the structured larger graphs: deeper paths and wider frontiers, every block size that cuts them differently
     for_each_structured(a.shard, a.nshards, |mut m, k| {
-        m.props = vec![always_true()];
+        m.props = match k % 3 {
+            0 => vec![always_true(), (Expectation::Sometimes, 1 << (m.n() / 2))],
+            1 => vec![always_true(), (Expectation::Always, !(1u8 << (m.n() / 2))), (Expectation::Sometimes, 1)],
+            _ => vec![always_true()],
+        };
         let orc = Oracle::new(&m);
-        for st in exhaustive_strategies() {
+        let mut strategies = exhaustive_strategies();
+        if m.inits.len() >= 2 {
+            strategies.push(Strategy::OnDemandProbe(k as usize));
+        }
+        for st in strategies {
             for b in [None, Some(1), Some(2), Some(3)] {
                 run.case(&m, &orc, &Config { block: b, ..Config::plain(st.clone()) }, None);
             }
@@ -774,6 +792,9 @@ pub fn run_c02(a: &Args, shared: &SharedReport) {
                         let mut strategies = vec![Strategy::Bfs, Strategy::Dfs, Strategy::OnDemand];
                         if is_swap_symmetric(&m) {
                             strategies.push(Strategy::DfsSym);
+                        }
+                        if m.inits.len() >= 2 && (m1 + m2) % 4 == 1 {
+                            strategies.push(Strategy::OnDemandProbe((m1 + m2) as usize));
                         }
                         for st in strategies {
                             run.case(&m, &orc, &Config::plain(st.clone()), None);
